@@ -442,6 +442,18 @@ func (m *Model) modeTest(iff *ssa.If, n int64) (*ssa.BasicBlock, bool) {
 func (m *Model) ruleOPENMODE(r *Results) {
 	const rule = "R-OPENMODE"
 	a := &m.A
+	// the schema script marks the database as initialised (user_version) with its LAST statement:
+	// the script runs statement by statement, and the open function takes a non-zero version to
+	// mean that everything before it is there
+	if m.Schema != nil && len(m.Schema.Stmts) > 0 {
+		idx := -1
+		for i, st := range m.Schema.Stmts {
+			if st.Kind == sqlp.SPragma && strings.EqualFold(st.PragmaName, "user_version") {
+				idx = i
+			}
+		}
+		r.check(idx == len(m.Schema.Stmts)-1, rule, "schema script / version marker last", m.Schema.File, "PRAGMA user_version is the last statement of the schema script", "the schema script sets user_version before its last statement (or never): a process killed in between leaves a database that every later open takes for complete although rows the script creates afterwards are missing")
+	}
 	createNew, ok1 := m.pkgConst("CreateNew")
 	reopen, ok2 := m.pkgConst("ReOpenExisting")
 	if !ok1 || !ok2 || a.OpenFn == nil || a.CloneFn == nil {
